@@ -80,6 +80,31 @@ def state_laws():
             for j in range(i, len(a) + 1):
                 if not isinstance(A[i:j], lw.State) or A[i:j].s != a[i:j]:
                     fails.append((a, f"slice {i}:{j}"))
+        # integer indexing like a list: every index from -n to n-1 gives that occupation, anything beyond raises IndexError
+        for i in range(-len(a) - 2, len(a) + 2):
+            try:
+                got = A[i]
+                if not -len(a) <= i < len(a) or got != a[i]:
+                    fails.append((a, f"state[{i}] = {got}"))
+            except IndexError:
+                if -len(a) <= i < len(a):
+                    fails.append((a, f"state[{i}] raised IndexError although the list has that position"))
+            except Exception as e:  # noqa: BLE001
+                fails.append((a, f"state[{i}] raised {type(e).__name__}"))
+        # augmented assignment re-binds the name; the state object that other references still hold is what it was (immutability through the API)
+        if len(a) <= 2:
+            keep = lw.State(list(a))          # an object of its own: a library that mutates it must not derail the remaining checks on A
+            h_keep, s_keep = hash(keep), keep.s
+            held = {keep: "x"}
+            w = keep
+            try:
+                w += lw.State([5, 6])
+                if w.s != a + [5, 6]:
+                    fails.append((a, f"state += State([5,6]) gave {w}"))
+            except Exception as e:  # noqa: BLE001
+                fails.append((a, f"state += State raised {type(e).__name__}"))
+            if keep.s != s_keep or hash(keep) != h_keep or held.get(lw.State(list(a))) != "x" or (w is keep):
+                fails.append((a, f"`x += State([5,6])` changed the State object itself: another reference now sees {keep}"))
         # every slice form, as for a list: omitted / negative / out-of-range bounds, steps of either sign; mode and photon counts of the slice are
         # those of the selected occupations
         bounds = [None, 0, 1, 2, -1, -2, len(a), len(a) + 1, -len(a) - 1]
